@@ -265,7 +265,25 @@ def shape_args(si):
     return opt_kw, req_kw, name not in GROUP_FIRST
 
 
-def mk_tokens(seq):
+LOC_VARIANTS = ("reversed", "restart", "equal", "columns-back")
+
+
+def locations(n, variant):
+    """token LOCATIONS that do not increase with the position in the sequence (the property is about positions; a token list
+    assembled from separately lexed pieces, or from generated / included text, has such locations)"""
+    if variant == "reversed":        # one token per line, the last token on line 1
+        return [(n - i, 1) for i in range(n)]
+    if variant == "restart":         # two pieces, each numbering its lines from 1
+        h = n // 2
+        return [(i + 2, 1) if i < h else (i - h + 1, 1) for i in range(n)]
+    if variant == "equal":           # all tokens at one dummy location
+        return [(1, 1)] * n
+    if variant == "columns-back":    # one line, columns running backwards
+        return [(1, n - i) for i in range(n)]
+    return [(1, i + 1) for i in range(n)]
+
+
+def mk_tokens(seq, variant=None):
     from pygments.token import Keyword, Name, Punctuation, Literal
     from codelimit.common.Location import Location
     from codelimit.common.Token import Token
@@ -274,7 +292,8 @@ def mk_tokens(seq):
     tt = {"id": (Name, "f"), "kw": (Keyword, "kw"), "(": (Punctuation, "("), ")": (Punctuation, ")"),
           "{": (Punctuation, "{"), "x": (Literal, "x"), "s(": (Literal.String, "("), "s)": (Literal.String, ")"),
           "[": (Punctuation, "["), "]": (Punctuation, "]")}
-    return [Token(Location(1, i + 1), tt[a][0], tt[a][1]) for i, a in enumerate(seq)]
+    locs = locations(len(seq), variant)
+    return [Token(Location(locs[i][0], locs[i][1]), tt[a][0], tt[a][1]) for i, a in enumerate(seq)]
 
 
 KIND = {"id": 2, "kw": 1, "(": 3, ")": 3, "{": 3, "x": 0, "s(": 7, "s)": 7, "[": 3, "]": 3}
@@ -353,10 +372,31 @@ def real_shape(args):
     for seq in seqs:
         try:
             ps = matcher.find_all(mk(), mk_tokens(seq))
-            out.append("ok %d" % len(ps) + "".join(" %d %d %d" % (p.start, p.end, len(p.tokens)) for p in ps))
+            rep = "ok %d" % len(ps) + "".join(" %d %d %d" % (p.start, p.end, len(p.tokens)) for p in ps)
+            if len(ps) >= 2 and name not in GROUP_FIRST:
+                rep += headers_probe(mk, seq, [(p.start, p.end) for p in ps])
+            out.append(rep)
         except Exception as e:  # noqa
             out.append("err %d" % engine_real.err_code(e))
     return out
+
+
+HDR_MARK = " #hdr "
+
+
+def headers_probe(mk, seq, want):
+    """the observation point of the header shapes, scope_utils.get_headers, on the same tokens at non-monotone LOCATIONS:
+    its ranges must be find_all's, in position order -> "" or HDR_MARK + what differs"""
+    from codelimit.common.scope.scope_utils import get_headers
+    for variant in LOC_VARIANTS:
+        try:
+            hs = get_headers(mk_tokens(seq, variant), mk())
+            got = [(h.token_range.start, h.token_range.end) for h in hs]
+        except Exception as e:  # noqa
+            got = "%s: %s" % (type(e).__name__, e)
+        if got != want:
+            return HDR_MARK + "get_headers with %s locations %s -> %s, find_all (position order) %s" % (variant, locations(len(seq), variant), got, want)
+    return ""
 
 
 def shape_cases(ctx):
@@ -377,6 +417,7 @@ def run_shapes(ctx):
     nontrivial = set()
     samples = []
     all_seqs = seqs
+    hdr_probes = [0]
     short = [q for q in all_seqs if len(q) < ctx.pick(6, 7)] + [q for q in all_seqs if len(q) > ctx.pick(6, 7)][::4]
     for si, (name, mk, opt_kw, req_kw) in enumerate(shapes()):
         ser = patterns.expr(mk(), [])[0]
@@ -391,6 +432,11 @@ def run_shapes(ctx):
         for seq, m, i in zip(seqs, model, impl):
             evals += 1
             inp = {"stream": "shape", "shape": name, "shape_index": si, "tokens": seq}
+            i, _, hdr = i.partition(HDR_MARK)
+            if hdr:
+                fails.append({"input": inp, "observed": hdr, "required": "headers in position order, the ranges find_all reports", "kind": "order"})
+            if need_name and i.startswith("ok") and int(i.split()[1]) >= 2:
+                hdr_probes[0] += len(LOC_VARIANTS)
             if m != i:
                 dis.append({"stream": "find_all/" + name, "input": inp, "model": m, "impl": i})
             ms = parse3(i)
@@ -403,6 +449,9 @@ def run_shapes(ctx):
                 fails.append({"input": inp, "observed": i, "required": detail, "kind": kind})
         samples.append({"shape": name, "tokens": seqs[len(seqs) // 3], "model": model[len(seqs) // 3], "impl": impl[len(seqs) // 3]})
     dis.sort(key=lambda d: len(d["input"]["tokens"]))
+    evals += hdr_probes[0]
+    rule += ("; every sequence with >= 2 matches of a shape with a name also through scope_utils.get_headers on the same tokens at non-monotone "
+             "LOCATIONS (%s): its ranges must be find_all's in position order (%d calls)" % (", ".join(LOC_VARIANTS), hdr_probes[0]))
     rule += "; the shapes that BEGIN with the group (Balanced+ alone, [kw] Balanced+) over the sequences up to length %d and a quarter of the random ones" % (ctx.pick(6, 7) - 1)
     return evals, nontrivial, dis, fails, samples, rule
 
@@ -1253,6 +1302,9 @@ def replay(payload):
         si = inp["shape_index"]
         i = real_shape((si, [inp["tokens"]]))[0]
         print("shape %s tokens %s -> %s" % (inp["shape"], inp["tokens"], i))
+        i, _, hdr = i.partition(HDR_MARK)
+        if hdr:
+            return False
         ms = parse3(i)
         o, q, nm = shape_args(si)
         bad = [b for b in (oracle_shape(inp["tokens"], ms, o, q, nm) if ms is not None else [("error", i)])
